@@ -69,6 +69,8 @@ def gen(seed, tier):
         queries.append({'kind': 'list', 'arg': '', 'argb': []})
         svcs = [(f['package'] + '.' if f['package'] else '') + s['name'] for f in files for s in f['services']]
         chosen = rnd.sample(svcs, rnd.randint(1, len(svcs))) if svcs and rnd.random() < 0.3 else []
+        if chosen and rnd.random() < 0.5:      # a chosen name need not be declared by any registered file (a service served without its descriptor)
+            chosen.insert(rnd.randint(0, len(chosen)), 'ops.v1.Probe')
         nf = len(files)
         mode = rnd.choice(['single', 'single', 'whole_dup', 'partial_dup', 'split'])
         if mode == 'single' or nf == 0:
